@@ -10,8 +10,7 @@ theorem applyOps_cons (j : Journal) (op : Op) (ops : List Op) :
     applyOps j (op :: ops) = applyOps (applyOp j op).1 ops := rfl
 
 /-- running the calls of a list one after the other for `n` statement-level steps -/
-theorem runProgs_boundary (c : Conn) (hcl : c.Clean) (ops : List Op)
-    (hok : ∀ op ∈ ops, op.HalfApplies = false) (n : Nat) :
+theorem runProgs_boundary (c : Conn) (hcl : c.Clean) (ops : List Op) (n : Nat) :
     (∃ m, (runProgs c (ops.map Op.prog) n).2 ≤ m ∧ m ≤ (runProgs c (ops.map Op.prog) n).2 + 1 ∧
         m ≤ ops.length ∧ (runProgs c (ops.map Op.prog) n).1.committed = applyOps c.committed (ops.take m)) ∧
     ((runProgs c (ops.map Op.prog) n).2 = ops.length →
@@ -21,7 +20,6 @@ theorem runProgs_boundary (c : Conn) (hcl : c.Clean) (ops : List Op)
   | nil => exact ⟨⟨0, by simp [runProgs], by simp [runProgs], by simp, rfl⟩, fun _ => ⟨hcl, hcl⟩⟩
   | cons op rest ih =>
     have spec := op_runSpec c hcl op n
-    have hop := hok op (List.mem_cons_self ..)
     simp only [List.map_cons, runProgs]
     rcases hrun : op.prog.run n c with ⟨c', n', _ | a⟩
     · -- died inside this call
@@ -36,11 +34,11 @@ theorem runProgs_boundary (c : Conn) (hcl : c.Clean) (ops : List Op)
         rw [hcm, ← hcl]; rfl
     · -- the call returned
       have hw := spec.working a (by rw [hrun])
-      have hc := spec.clean a (by rw [hrun]) hop
+      have hc := spec.clean a (by rw [hrun])
       rw [hrun] at hw hc
       simp only at hw hc
       have hcm' : c'.committed = (applyOp c.committed op).1 := by rw [← hc, hw, hcl]
-      obtain ⟨⟨m, h1, h2, h3, h4⟩, h5⟩ := ih c' hc (fun o ho => hok o (List.mem_cons_of_mem _ ho)) n'
+      obtain ⟨⟨m, h1, h2, h3, h4⟩, h5⟩ := ih c' hc n'
       simp only
       constructor
       · refine ⟨m + 1, by omega, by omega, by simp; omega, ?_⟩
@@ -64,7 +62,7 @@ theorem reopen_spec (c : Conn) : (reopen c).working = c.committed ∧ (reopen c)
 /-- number of *method calls* that returned before the process died (the open is not counted) -/
 def completedOps (file : Journal) (ops : List Op) (fuel : Nat) : Nat := (session file ops fuel).2 - 1
 
-theorem session_boundary (file : Journal) (ops : List Op) (hok : ∀ op ∈ ops, op.HalfApplies = false) (k : Nat) :
+theorem session_boundary (file : Journal) (ops : List Op) (k : Nat) :
     (∃ m, completedOps file ops k ≤ m ∧ m ≤ completedOps file ops k + 1 ∧ m ≤ ops.length ∧
         (session file ops k).1.committed = applyOps file (ops.take m)) ∧
     ((session file ops k).2 = ops.length + 1 →
@@ -80,11 +78,11 @@ theorem session_boundary (file : Journal) (ops : List Op) (hok : ∀ op ∈ ops,
     simp only [connect, or_self] at hcm
     exact ⟨⟨0, by simp, by simp, by simp, by simpa [applyOps] using hcm⟩, fun h => by simp at h⟩
   · have hw := spec.working a (by rw [hrun])
-    have hc := spec.clean a (by rw [hrun]) rfl
+    have hc := spec.clean a (by rw [hrun])
     rw [hrun] at hw hc
     simp only [connect] at hw hc
     have hcm' : c'.committed = file := by rw [← hc, hw]
-    obtain ⟨⟨m, h1, h2, h3, h4⟩, h5⟩ := runProgs_boundary c' hc ops hok n'
+    obtain ⟨⟨m, h1, h2, h3, h4⟩, h5⟩ := runProgs_boundary c' hc ops n'
     simp only
     constructor
     · exact ⟨m, by omega, by omega, h3, by rw [h4, hcm']⟩
